@@ -29,7 +29,7 @@ func (w *World) Legal(op Op) bool {
 		return accepted(op.App) && s.Keys[op.Key] == nil
 	case OpUpdAsk:
 		k := s.Keys[op.Key]
-		return k != nil && k.State != KDead && k.App == op.App
+		return k != nil && k.State != KDead && k.App == op.App && k.Announced == ""
 	case OpReportBound:
 		k := s.Keys[op.Key]
 		return accepted(op.App) && liveNode(op.Node) && (k == nil || (k.State == KOutstanding && k.App == op.App && k.Announced == ""))
